@@ -17,7 +17,9 @@ func InitGenesis(ctx sdk.Context, k keeper.Keeper, data types.GenesisState) {
 			k.SetRewardRule(ctx, pool.Id, r)
 		}
 		k.SetPool(ctx, pool)
-		if !k.Expired(ctx, pool) {
+		// a pool whose end height is not behind the importing chain's height has not been ended yet
+		// (Expired cannot be used here: at the end height itself it looks for the queue entry being built)
+		if pool.EndHeight >= ctx.BlockHeight() {
 			k.EnqueueActivePool(ctx, pool.Id, pool.EndHeight)
 		}
 	}
